@@ -26,7 +26,21 @@ from props.C01 import (r_db, r_query, r_obs, r_case, known_variants, unsupported
 
 PRE = "From DF Require Import Base.Prelude Model.RefSQL Model.PhysDecomp.\nOpen Scope Z_scope."
 
-KEY_KF4 = "C02-order-by-dropped-over-outer-join-gives-configuration-dependent-order"
+# known findings (listed in known_findings.json; fixed witnesses in c02.rs `witnesses()`).  A failing query is attributed to
+# one of them only if the harness' re-run with the corresponding override makes all its configurations agree again.
+KEY_SMJ = "C02-sort-merge-join-filter-index-out-of-bounds-with-several-partitions"
+KEY_DYN = "C02-join-dynamic-filter-pushdown-changes-result"
+SUS_DYN = "datafusion.optimizer.enable_join_dynamic_filter_pushdown=false"
+SUS_PHJ = "datafusion.optimizer.prefer_hash_join=true"
+
+
+def known_key(c):
+    sus = {s["opt"]: s["ok"] for s in c.get("suspects", [])}
+    if sus.get(SUS_DYN):
+        return KEY_DYN
+    if sus.get(SUS_PHJ) and any("index out of bounds" in r["out"].get("err", "") for r in c["runs"]):
+        return KEY_SMJ
+    return None
 
 
 def canon(kind, out):
@@ -188,16 +202,20 @@ def analyse(ck, cases):
             what = "results differ between configurations (%s vs %s)" % (
                 "error" if "err" in c["runs"][a]["out"] else "%d rows" % len(c["runs"][a]["out"]["rows"]),
                 "error" if "err" in c["runs"][b]["out"] else "%d rows" % len(c["runs"][b]["out"]["rows"]))
-            key = KEY_KF4 if set(labs) <= {"ref", KF_SORT} and KF_SORT in labs else None
-            ck.fail_input(what, brief(c, a, b), key=key)
+            ck.fail_input(what, dict(brief(c, a, b), overrides_that_make_all_configurations_agree=[
+                s_["opt"] for s_ in c.get("suspects", []) if s_["ok"]]), key=known_key(c))
             continue
+        if KF_SORT in labs and set(labs) <= {"ref", KF_SORT}:
+            # C01-KF4: the SortExec is dropped in every configuration; that the unsorted output of one configuration
+            # happens to be in order is not a different deviation
+            labs = [KF_SORT]
         if len(set(labs)) > 1:
             # same bag / same number of rows, but the verdict against the reference (row order on the ORDER BY keys,
             # validity of the top-k, or which known deviation explains it) differs between configurations
             stats["config_dependent"] += 1
             j1 = 0
             j2 = next(j for j in range(len(labs)) if labs[j] != labs[0])
-            key = KEY_KF4 if set(labs) <= {"ref", KF_SORT} else None
+            key = None
             ck.fail_input("the same query is judged differently against the reference in two configurations (%s vs %s): "
                           "row order / top-k depends on the configuration" % (labs[j1][:7], labs[j2][:7]),
                           brief(c, rep[j1], rep[j2]), key=key)
